@@ -264,7 +264,8 @@ BatteryFor(bp, req, stay, V, P, pw, u) ==
       [] bp = "probe"  -> [type |-> "Battery", pw |-> pw] @@ Probe(req, stay, V, P, u)
       [] bp = "probe2" -> [type |-> "Linear2StageBattery", pw |-> pw, tsoc |-> 60] @@ Probe(req, stay, V, P, u)
       [] bp = "fit"    -> [type |-> "Linear2StageBattery", pw |-> pw, fit |-> FitVerdict(req, stay, V, P),
-                           mustfit |-> (req = 32 * V * stay * P /\ stay >= 1 /\ \E i \in 1..Len(Menu) : 5 * req <= 4 * Menu[i])]
+                           \* ... and a request of nothing (a visit within one period, capped by force_feasible) is held by any battery
+                           mustfit |-> (req = 0 \/ (req = 32 * V * stay * P /\ stay >= 1 /\ \E i \in 1..Len(Menu) : 5 * req <= 4 * Menu[i]))]
 
 (***************************************************************************)
 (* Part B.2  ACN-Data document -> session  (get_evs + _convert_to_ev).      *)
